@@ -190,6 +190,7 @@ class Machine:
         self.tracked = {}
         self.inconclusive = None
         self.cmp_log = []
+        self.zero_atoms = {}
         self.div_log = []
         self.fncall_log = []
 
@@ -234,6 +235,14 @@ class Machine:
         if k == "fcmp":
             _, op, a, b = c
             self.cmp_log.append((op, a, b, span))
+            if self.zero_atoms:
+                # canonicalise under the path's `atom == 0` facts so that e.g. (w1 + w2) with
+                # w1 == 0 is compared as w2
+                a = F.subst(a, self.zero_atoms)
+                b = F.subst(b, self.zero_atoms)
+                if F.is_lit(a) and F.is_lit(b):
+                    x, y = F.litval(a), F.litval(b)
+                    return {"Eq": x == y, "Lt": x < y, "Le": x <= y, "Ne": x != y, "Ge": x >= y, "Gt": x > y}[op]
             if F.has_opaque(a) or F.has_opaque(b):
                 t = self.choose(2, ("opaque-float-cmp", span)) == 0
                 self.mark_inconclusive("branch on a float produced by an unmodelled call", span)
@@ -241,12 +250,21 @@ class Machine:
             d = self.order.decide(op, a, b)
             if d is not None:
                 return d
+            d = self._decide_by_sign(op, a, b)
+            if d is not None:
+                return d
             t = self.choose(2, ("fcmp", op, span)) == 0
             try:
                 self.order.assume(op, a, b, t)
+                self._propagate_zero_sum(op, a, b, t)
             except Infeasible:
                 raise PathEnd("infeasible")
             self.pc.append(("fcmp", op, a, b, t, span))
+            if ((op == "Eq" and t) or (op == "Ne" and not t)):
+                if a[0] == "atom" and F.is_zero(b):
+                    self.zero_atoms[a] = F.ZERO
+                elif b[0] == "atom" and F.is_zero(a):
+                    self.zero_atoms[b] = F.ZERO
             return t
         if k == "isnan":
             a = c[1]
@@ -297,6 +315,49 @@ class Machine:
             self.mark_inconclusive("branch on an unmodelled boolean (%s)" % (c[1],), span)
             return t
         raise Unsupported("cond %r" % (k,))
+
+    def _propagate_zero_sum(self, op, a, b, t):
+        """(p + q == 0) with p, q >= 0 forces p == 0 and q == 0"""
+        if not ((op == "Eq" and t) or (op == "Ne" and not t)):
+            return
+        x = a if F.is_zero(b) else (b if F.is_zero(a) else None)
+        if x is None or x[0] != "add":
+            return
+        from sign import SignEnv, is_nonneg
+        se = SignEnv(self, {})
+        if is_nonneg(se.of(x[1])) and is_nonneg(se.of(x[2])) and self.cfg.finite:
+            for part in (x[1], x[2]):
+                if not F.is_lit(part):
+                    self.order.assume("Eq", part, F.ZERO, True)
+                    self._propagate_zero_sum("Eq", part, F.ZERO, True)
+
+    def _decide_by_sign(self, op, a, b):
+        """comparison of a residual with literal zero decided by the sign domain (e.g. a sum of
+        positive accumulators is not zero)"""
+        if F.is_zero(b):
+            x, flip = a, False
+        elif F.is_zero(a):
+            x, flip = b, True
+        else:
+            return None
+        if F.is_lit(x) or x[0] == "atom":
+            return None
+        from sign import SignEnv
+        s = SignEnv(self, {}).of(x)
+        if s == "any":
+            return None
+        if flip:
+            s = {"pos": "neg", "neg": "pos", "nonneg": "nonpos", "nonpos": "nonneg", "zero": "zero"}[s]
+        table = {
+            "pos": {"Eq": False, "Ne": True, "Lt": False, "Le": False, "Gt": True, "Ge": True},
+            "neg": {"Eq": False, "Ne": True, "Lt": True, "Le": True, "Gt": False, "Ge": False},
+            "zero": {"Eq": True, "Ne": False, "Lt": False, "Le": True, "Gt": False, "Ge": True},
+            "nonneg": {"Lt": False, "Ge": True},
+            "nonpos": {"Gt": False, "Le": True},
+        }
+        if not self.cfg.finite:
+            return None
+        return table[s].get(op)
 
     def mark_inconclusive(self, why, span=None):
         if self.inconclusive is None:
@@ -820,6 +881,9 @@ class Machine:
                 if k == "assign":
                     sp = st["span"]
                     v = self.rvalue(fr, st["rv"], sp)
+                    if v is True and self.cfg.release and self._is_debug_cfg_span(sp):
+                        # `cfg!(debug_assertions)` inside debug_assert*!: false in release builds
+                        v = False
                     cell, path, win = self.place_loc(fr, st["place"], sp)
                     self.write_loc(cell, path, v, sp)
                 elif k == "setdiscr":
@@ -885,6 +949,11 @@ class Machine:
                 return t["targets"][c][1]
             return t["otherwise"]
         raise Unsupported("switch on %r" % type(d).__name__)
+
+    def _is_debug_cfg_span(self, sp):
+        mx = sp.get("mx") or []
+        return (len(mx) >= 2 and mx[0].split("::")[-1].endswith("cfg")
+                and any(x.split(":", 1)[1].split("::")[-1].startswith("debug_assert") for x in mx[1:]))
 
     def _is_debug_cfg(self, t):
         mx = t["span"].get("mx") or []
